@@ -264,6 +264,8 @@ def gen_api_history(seed, nops=30, malformed=0.25, with_io=None, caller_mut=0.0,
                 L.append("param %s %s x 0 %s - -" % (xhex(grp), xhex(nm), ty)); g.count("op_param_refused")
             else:
                 nm = r.choice([b"A", b"B", b"a", b"LONGNAME", g.name(1, special=0.1)])
+                # names the writer treats specially, outside the group where they are special
+                if grp.strip().upper() != b"POINT" and r.random() < 0.12: nm = b"DATA_START"; g.count("param_named_DATA_START")
                 L.append(param_line(g, grp, nm, valid=not (bad and r.random() < 0.5)))
             g.count("op_param")
         elif c < 0.90:
